@@ -204,6 +204,39 @@ pub fn check_view(cla: u8, ins: u8, p1: u8, data: &[u8], bytes: &[u8]) -> Verdic
     verdict(want, r, cla, ins, p1, "view")
 }
 
+/// owned command buffers of other capacities (exactly the data length, one more, one less)
+pub fn check_owned_cap(cap: usize, cla: u8, ins: u8, p1: u8, data: &[u8], bytes: &[u8]) -> Verdict {
+    let want = if data.len() > cap { Exp::Unreachable } else { expected(cla, ins, p1, data) };
+    breadcrumb(TAG_APDU, bytes);
+    macro_rules! go {
+        ($n:literal) => {
+            guard(|| match iso7816::Command::<$n>::try_from(bytes) {
+                Err(_) => (Exp::Unreachable, true),
+                Ok(cmd) => {
+                    let r = ctap1::Request::try_from(&cmd);
+                    observe(&r, p1, data)
+                }
+            })
+        };
+    }
+    let r = match cap {
+        0 => go!(0),
+        1 => go!(1),
+        63 => go!(63),
+        64 => go!(64),
+        65 => go!(65),
+        66 => go!(66),
+        67 => go!(67),
+        68 => go!(68),
+        319 => go!(319),
+        320 => go!(320),
+        321 => go!(321),
+        322 => go!(322),
+        _ => machinery_panic("owned capacity not instantiated"),
+    };
+    verdict(want, r, cla, ins, p1, "owned-exact")
+}
+
 pub fn check_owned(cla: u8, ins: u8, p1: u8, data: &[u8], bytes: &[u8]) -> Verdict {
     // data beyond the capacity of the owned buffer is refused by iso7816 (TooLong) before ctap-types
     // is reached
@@ -290,7 +323,8 @@ pub fn run(ctx: &'static Ctx) {
     if ctx.thorough() {
         run_grid("complete header space x all data shapes x all encodings", "256 classes x 256 instructions x 256 P1 x P2 in {00, FF} x every body", all.clone(), all.clone(), all.clone(), vec![0x00, 0xff], all_shapes.clone(), false);
     } else {
-        run_grid("all classes x all instructions x 11 P1 x 3 P2 x all data shapes x all encodings", "P1 in {00,01,02,03,04,06,07,08,09,80,FF}", all.clone(), all.clone(), p1s.to_vec(), p2s.to_vec(), all_shapes.clone(), false);
+        run_grid("all classes x all instructions x 11 P1 x all data shapes x all encodings", "P1 in {00,01,02,03,04,06,07,08,09,80,FF}, P2 = 00", all.clone(), all.clone(), p1s.to_vec(), vec![0x00], all_shapes.clone(), false);
+        run_grid("class 0 x all instructions x 11 P1 x P2 in {55, FF} x all data shapes x all encodings", "P2 must not influence the decision", vec![0x00], all.clone(), p1s.to_vec(), p2s[1..].to_vec(), all_shapes.clone(), false);
         run_grid("complete header space x decisive shapes", "256 x 256 x 256 headers x {no data, 64 bytes, 65+1 bytes} x applicable encodings", all.clone(), all.clone(), all.clone(), vec![0x00], key_shapes.clone(), false);
     }
     // content classes of the data field (class 0 only: the CTAP1 logic is reached)
@@ -318,6 +352,38 @@ pub fn run(ctx: &'static Ctx) {
         });
     }
     run_grid("owned Command<1024> conversion", "classes {00,01,80,FE,FF} x all instructions x 11 P1 x every body through try_from(&Command<S>)", vec![0x00, 0x01, 0x80, 0xfe, 0xff], all.clone(), p1s.to_vec(), vec![0x00], all_shapes.clone(), true);
+    // owned command buffers whose capacity is exactly / one more / one less than the data length
+    {
+        let caps = [0usize, 1, 63, 64, 65, 66, 67, 68, 319, 320, 321, 322];
+        let mut cases: Vec<(usize, usize)> = Vec::new();
+        for (si, sh) in shapes.iter().enumerate() {
+            for c in caps {
+                if (c as i64 - sh.data.len() as i64).abs() <= 1 {
+                    cases.push((si, c));
+                }
+            }
+        }
+        let rad = [4u64, 256, 11, cases.len() as u64];
+        let cr = &cases;
+        sweep(ctx, "owned Command<S> with S at the data length", product(&rad), "classes {00,01,80,FF} x all instructions x 11 P1 x every body whose data length is S-1, S or S+1 for S in {0,1,63..68,319..322}", move |idx, l| {
+            let mut d = [0u64; 4];
+            unrank(idx, &rad, &mut d);
+            let cla = [0x00u8, 0x01, 0x80, 0xff][d[0] as usize];
+            let (ins, p1) = (d[1] as u8, p1s[d[2] as usize]);
+            let (si, cap) = cr[d[3] as usize];
+            let sh = &sr[si];
+            let mut b = vec![cla, ins, p1, 0];
+            b.extend_from_slice(&sh.body);
+            if cla == 0 {
+                l.nontrivial += 1;
+            }
+            let v = check_owned_cap(cap, cla, ins, p1, &sh.data, &b);
+            l.bump(exp_key(&if sh.data.len() > cap { Exp::Unreachable } else { expected(cla, ins, p1, &sh.data) }));
+            if !v.ok {
+                l.fail(ctx, idx, v, || json!({"kind": "apdu", "owned": true, "owned_cap": cap, "apdu": hex(&b), "data_len": sh.data.len(), "encoding": sh.enc}));
+            }
+        });
+    }
     {
         let mut items: Vec<(String, Box<dyn Fn() -> String + Sync>)> = Vec::new();
         let picks: Vec<usize> = shapes.iter().enumerate().filter(|(_, s)| matches!(s.data.len(), 0 | 64 | 65 | 66 | 320) && s.enc % 2 == 0).map(|(i, _)| i).collect();
@@ -353,7 +419,9 @@ pub fn replay(case: &Value) -> Verdict {
         _ => 3,
     };
     let data = bytes[off..off + n].to_vec();
-    if case["owned"].as_bool().unwrap_or(false) {
+    if let Some(cap) = case["owned_cap"].as_u64() {
+        check_owned_cap(cap as usize, cla, ins, p1, &data, &bytes)
+    } else if case["owned"].as_bool().unwrap_or(false) {
         check_owned(cla, ins, p1, &data, &bytes)
     } else {
         check_view(cla, ins, p1, &data, &bytes)
